@@ -87,7 +87,7 @@ Print Assumptions C10_sharp_grid_refuted.
 
 (* 4. After a failed run that is to be retried: the error's delay (TemporaryError) or the handler's backoff
       (arbitrary exception, TEMPORARY mode), counted from the end of the function, NOT the interval. *)
-Theorem C10_after_failure_partial : forall fuel c e spawn script k y1 y2,
+Theorem C10_after_failure_exact : forall fuel c e spawn script k y1 y2,
   nth_error (timer_cycles fuel c e spawn script) k = Some y1 ->
   nth_error (timer_cycles fuel c e spawn script) (S k) = Some y2 ->
   y_inv y1 = true -> y_done y1 = false ->
@@ -98,19 +98,29 @@ Theorem C10_after_failure_partial : forall fuel c e spawn script k y1 y2,
       y_hend y1 + c_backoff c <= y_start y2 /\
       idle_ok e (c_idle c) (Z.max (y_pend y1) (y_hend y1 + c_backoff c)) (y_start y2)).
 Proof. exact law_after_failure. Qed.
-Print Assumptions C10_after_failure_partial.
+Print Assumptions C10_after_failure_exact.
 
-(* The unguarded statement "after ANY failed run the backoff is waited" is false of the faithful model: a failure
-   that is final (retries/timeout exhausted, PermanentError) resets the state and is followed by the interval
-   (cross-reference DESIGN §9 F9, recorded by C11). *)
-Theorem C10_after_failure_refuted :
-  exists fuel c e spawn script k y1 y2,
-    nth_error (timer_cycles fuel c e spawn script) k = Some y1 /\
-    nth_error (timer_cycles fuel c e spawn script) (S k) = Some y2 /\
-    y_inv y1 = true /\ e_out (y_en y1) = OArb /\ c_errors c = ETemporary /\
-    y_start y2 < y_hend y1 + c_backoff c.
-Proof. exact after_failure_full_refuted. Qed.
-Print Assumptions C10_after_failure_refuted.
+(* The full statement of the law, for two consecutive RUNS (both cycles entered the function): whatever the
+   retries/timeout settings, a TemporaryError imposes its delay and an arbitrary exception (unless ignored)
+   the backoff.  (Before the fix e01f313 of /repo this was refuted: a final failure was followed by the
+   interval; now a final failure is followed by no run at all, see C10_no_run_after_final_failure.) *)
+Theorem C10_after_failure : forall fuel c e spawn script k y1 y2,
+  nth_error (timer_cycles fuel c e spawn script) k = Some y1 ->
+  nth_error (timer_cycles fuel c e spawn script) (S k) = Some y2 ->
+  y_inv y1 = true -> y_inv y2 = true ->
+  (forall d, e_out (y_en y1) = OTemp (Some d) -> y_hend y1 + d <= y_start y2) /\
+  (e_out (y_en y1) = OArb -> c_errors c <> EIgnored -> y_hend y1 + c_backoff c <= y_start y2).
+Proof. exact law_after_failure_full. Qed.
+Print Assumptions C10_after_failure.
+
+(* After a final failure (PermanentError, retries or timeout exhausted, strict checks) the function is never
+   entered again: every later cycle only sleeps the interval / idle. *)
+Theorem C10_no_run_after_final_failure : forall fuel c e spawn script i j yi yj, (i < j)%nat ->
+  nth_error (timer_cycles fuel c e spawn script) i = Some yi -> y_failed yi = true ->
+  nth_error (timer_cycles fuel c e spawn script) j = Some yj ->
+  y_inv yj = false /\ y_failed yj = true.
+Proof. exact law_no_run_after_final_failure. Qed.
+Print Assumptions C10_no_run_after_final_failure.
 
 (* 5. No run is earlier than the initial delay; the first one is at the first instant idling allows after it. *)
 Theorem C10_initial_delay : forall fuel c e spawn script d y,
